@@ -24,7 +24,7 @@ use zcash_primitives::transaction::TxId;
 use zcash_protocol::consensus::BlockHeight;
 use zcash_protocol::PoolType;
 
-use check::{apply_lock_request, check_proposal, create, viol, Provers};
+use check::{apply_lock_request, check_proposal, constructor_guards, create, viol, Provers};
 use model::{lock_active, pending_unexpired, spool_of, InKey, Inel, LockM, View};
 use req::{choose_amounts, err_class, funds, invoke, owner, random_req, Kind, NoteProposal, Out, Req, ShieldProposal, N_OWNERS};
 use world::{Cfg, World};
@@ -296,6 +296,7 @@ fn proposal_op(wd: &mut World, r: &mut Reporter, d: &mut Driver) {
             r.count("proposals_returned", 1);
             let upper = f.upper;
             let ck = check_proposal(wd, r, &q, &v, upper, &p);
+            constructor_guards(wd, r, &q, &p);
             wd.log(json!({"op":"propose","req":q.to_json(),"target":target,"steps":ck.inputs.iter().map(|s| s.iter().map(|k| k.short()).collect::<Vec<_>>()).collect::<Vec<_>>()}));
             if q.lock_req.is_some() {
                 r.count("proposals_returned_with_lock_request", 1);
